@@ -224,6 +224,7 @@ def hb_kind(pair, prefix, placement):
 SITE_RECORDS = "enum ER { A { x : int; }, B }\n"
 SITE_HELPERS = """func pner(t : int) -> ER { var a = {[ 2 ]} : ER; a[1] = ER::A(4); a[t == 0 ? 0 : 1] }
 func g2() -> [_,_] : int { [ [ 1, 2, 3 ], [ 4, 5, 6 ] ] : int }
+func dimof(z[D] : int) -> int { D * 0 + 9 }
 func prng(t : int) -> [..] : range { var a = {[ 2 ]} : [..] : range; a[1] = [ 0 .. 5 ]; a[t == 0 ? 0 : 1] }
 func pslc(t : int) -> [..] : int { var a = {[ 2 ]} : [..] : int; a[1] = garr()[0 .. 2]; a[t == 0 ? 0 : 1] }
 func stdiv() -> int { 1 / zero() } catch (division_by_zero) { 0 }
@@ -298,6 +299,8 @@ def _site_probes():
     add("slice-of-slice-lower-out-of-bounds", "index_out_of_bounds", lambda t: "{ let sps = garr()[0 .. 2]; let spq = sps[((%s) == 0 ? 5 : 1) .. 2]; 9 }" % t)
     add("slice-of-slice-2nd-dimension", "index_out_of_bounds", lambda t: "{ let sps = g2()[0 .. 1, 0 .. 2]; let spq = sps[0 .. 1, 1 .. ((%s) == 0 ? 7 : 2)]; 9 }" % t)
     add("slice-of-nil-slice", "nil_pointer", lambda t: "{ let spq = pslc(%s)[0 .. 1]; 9 }" % t)
+    add("slice-of-nil-string", "nil_pointer", lambda t: "{ let sps = pstr(%s)[0 .. 1]; 9 }" % t)
+    add("extent-of-nil-array-parameter", "nil_pointer", lambda t: "dimof(parr(%s))" % t)
     add("slice-of-string-out-of-bounds", "index_out_of_bounds", lambda t: "{ let sps = gstr()[1 .. ((%s) == 0 ? 9 : 2)]; 9 }" % t)
     add("array-index-negative", "index_out_of_bounds", lambda t: "garr()[(%s) - 1 < 0 ? (%s) - 1 : 0] - 1" % (t, t))
     add("array-index-too-large", "index_out_of_bounds", lambda t: "(garr()[(%s) == 0 ? 3 : 0] - 1)" % t)
